@@ -158,7 +158,7 @@ pub fn abs_doc(k: usize, style: Style) -> FileSpec {
         version,
         mark: vec![0xe2, 0xe3, 0xcf, 0xd3],
         style,
-        sections: vec![Section { objects, trailer, objstm: None, omit_xref: vec![] }],
+        sections: vec![Section { objects, trailer, objstm: None, omit_xref: vec![], extra_members: vec![] }],
         helper_base: None,
     }
 }
